@@ -122,6 +122,19 @@ class GraphNode(HyperNode):
         return self._graph
 
     @property
+    def data_outputs(self) -> tuple[str, ...]:
+        """Outputs that carry data.
+
+        Emit-only names of the inner graph are ordering signals of this node as
+        well: they carry no value, they only tell waiters that the node ran.
+        """
+        emit_only = self._graph._get_emit_only_outputs()
+        if not emit_only:
+            return self.outputs
+        reverse_map = build_reverse_rename_map(self._rename_history, "outputs")
+        return tuple(o for o in self.outputs if reverse_map.get(o, o) not in emit_only)
+
+    @property
     def map_config(self) -> tuple[list[str], Literal["zip", "product"], ErrorHandling] | None:
         """Map configuration if set, else None.
 
